@@ -16,6 +16,6 @@ for f in sorted(glob.glob('evidence/*.json')):
     d = json.load(open(f)); jsonschema.validate(d, sch)
     c = d['coverage']
     flag = '' if c.get('discharged') == c.get('obligations') else '  <-- discharged != obligations'
-    print(f, c.get('obligations'), c.get('discharged'), flag)
+    print(f, c.get("obligations"), c.get("discharged"), "bounded", c.get("bounded_checks_passed"), "/", c.get("bounded_checks"), flag)
 PY
 exit $rc
